@@ -174,13 +174,13 @@ char* galois::substrate::PerBackend::initPerSocket(unsigned maxT) {
     memset(b, 0, ptAllocSize);
     return b;
   }
-  char* expected = nullptr;
   // wait for leader to fix up socket
-  while (heads[leader].compare_exchange_weak(expected, nullptr)) {
+  char* b;
+  while (!(b = heads[leader].load())) {
     substrate::asmPause();
   }
-  heads[id] = heads[leader].load();
-  return heads[id];
+  heads[id] = b;
+  return b;
 }
 
 void galois::substrate::initPTS(unsigned maxT) {
